@@ -12,7 +12,23 @@ pub fn spline_queries<T: Flt>(rng: &mut Rng, x: &[T], extra: usize) -> Vec<T> {
     let lo = x[0];
     let hi = x[x.len() - 1];
     let mut q = Vec::new();
-    for w in x.windows(2) {
+    let n_int = x.len() - 1;
+    // long axes: the first and last 40 intervals completely, 150 random ones in between
+    let keep: Option<std::collections::HashSet<usize>> = if n_int > 300 {
+        let mut s: std::collections::HashSet<usize> = (0..40).chain(n_int - 40..n_int).collect();
+        for _ in 0..150 {
+            s.insert(rng.below(n_int));
+        }
+        Some(s)
+    } else {
+        None
+    };
+    for (iv, w) in x.windows(2).enumerate() {
+        if let Some(k) = &keep {
+            if !k.contains(&iv) {
+                continue;
+            }
+        }
         let h = w[1] - w[0];
         q.push(w[0]);
         for k in [0.25, 0.5, 0.75] {
@@ -23,7 +39,12 @@ pub fn spline_queries<T: Flt>(rng: &mut Rng, x: &[T], extra: usize) -> Vec<T> {
         }
     }
     q.push(hi);
-    for &k in x {
+    for (ik, &k) in x.iter().enumerate() {
+        if let Some(kp) = &keep {
+            if !(kp.contains(&ik) || (ik > 0 && kp.contains(&(ik - 1)))) {
+                continue;
+            }
+        }
         let u = k.up();
         let d = k.down();
         if u <= hi {
@@ -180,6 +201,11 @@ pub fn spline_case<T: Elem>(
     }
     if prop == "C03" && case % 5 == 4 {
         o.extrapolate = true;
+    }
+    // a few very long axes in every run (several hundred to a few thousand points)
+    if case % 97 == 96 {
+        o.force_n = Some(*rng.pick(&[513usize, 600, 1025, 2049]));
+        o.max_lane_rank = 1;
     }
     let (spec, lab) = gen_spline_case::<T>(&mut rng, &o);
     let x = spec.axis();
